@@ -352,7 +352,7 @@ class File:
         clsname = "metadata"
         if not name:
             name = str(obj.name)
-        sec = self._h5group.open_group("sections", True)
+        sec = self._h5group.open_group(clsname, True)
         if name in sec:
             raise NameError("Name already exist. Possible solution is to "
                             "provide a new name when copying destination "
